@@ -348,9 +348,9 @@ def hermes_state(ctx, rule):
     ctx.check(parse == ["Result::ok(vlq::parse_vlq_segment_into(try(Iterator::next(SEGS)),^var:Vec<i64>))"], rule, fn, "parse-error->None",
               "a segment that fails to parse disables scope lookup for this source only (.ok()? inside the per-source closure)", detail=str(parse))
     lit = [q.shape(b.expr_of_rvalue(s["rv"]), roles) for bi, si, s, it in b.locations() if not it and s["k"] == "assign" and s["rv"]["k"] == "agg" and s["rv"].get("adt") == "hermes::HermesFunctionMap"]
-    ENTRY = "try(Iterator::next(slice::iter(try(Option::as_ref(arg2)))))"
-    if any("try(Option::as_ref(arg2))[0]" in x for x in lit):
-        ENTRY = "try(Option::as_ref(arg2))[0]"  # `.first()?` instead of `.iter().next()?`
+    ENTRY = "try(Iterator::next(slice::iter(try(arg2))))"
+    if any("try(arg2)[0]" in x for x in lit):
+        ENTRY = "try(arg2)[0]"  # `.first()?` instead of `.iter().next()?`
     pv = [q.root_local(q.arg_expr(b, t, 0)) for bi, t in q.calls_to(b, "Vec::<T, A>::push") if q.shape(q.arg_expr(b, t, 1), roles).startswith("HermesScopeOffset{")]
     lroles = dict(roles)
     if len(pv) == 1 and pv[0] is not None:
@@ -400,12 +400,14 @@ def hermes_lookup(ctx, rule):
     from rules.common import facts_keys
     b = ctx.body(SCOPE)
     fn = b.path
-    fmv = [l for l in sorted(b.var_names) if b.var_names[l] not in ("val", "residual") and any(sh.startswith("try(Option::as_ref(try(slice::get(arg1.function_maps,") for sh, _, _ in q.def_shapes(b, l, {}))]
+    fmv = [l for l in sorted(b.var_names) if b.var_names[l] not in ("val", "residual") and any(sh.startswith("try(try(slice::get(arg1.function_maps,") for sh, _, _ in q.def_shapes(b, l, {}))]
+    if len(fmv) > 1:
+        fmv = fmv[:1]  # further names of the same value (the `self` of an inlined helper method)
     if not ctx.check(len(fmv) == 1, rule, fn, "function_map", "the token's function map is looked up"):
         return
     roles = {fmv[0]: "fm"}
     d = [sh for sh, _, _ in q.def_shapes(b, fmv[0], {})]
-    ctx.check(d == ["try(Option::as_ref(try(slice::get(arg1.function_maps,cast<usize>(arg2.raw.src_id)))))"], rule, fn, "by-src-id",
+    ctx.check(d == ["try(try(slice::get(arg1.function_maps,cast<usize>(arg2.raw.src_id))))"], rule, fn, "by-src-id",
               "the function map is function_maps.get(src_id)?.as_ref()? (nothing when the source has none)", detail=str(d))
     calls = [(bi, b.expr_of_call(t)) for bi, t in b.calls() if q.callee_matches(t, "utils::greatest_lower_bound")]
     if not ctx.check(len(calls) == 1, rule, fn, "glb", "one greatest_lower_bound lookup"):
@@ -435,8 +437,8 @@ def hermes_lookup(ctx, rule):
             inner = sh[len("FromResidual::from_residual(break(Try::branch("):]
             ok = inner.startswith(REASONS[:4])
         elif sh == "Option::None{}":
-            ks = [k for k in facts_keys(b, site[0], roles) if k[0] in ("variant_in", "variant_not_in")]
-            ok = bool(ks) and any(str(k[1]).replace("Try::branch(", "").startswith(REASONS) for k in ks)
+            from rules.common import given_up_for
+            ok = given_up_for(b, site[0], roles, REASONS + ("try(slice::get(arg1.function_maps,",))
         else:
             ok = sh.startswith(("Option::map(slice::get(fm.names,", "Option::Some{", "slice::get(fm.names,", "try(", "Option::and_then(", "Option::map("))
         ctx.check(ok, rule, fn, "none:only-reviewed", "nothing is returned only when the source has no function map, no entry lies at or before the position or the name index does not resolve", ctx.site(b, *site), detail=sh[:200])
